@@ -42,6 +42,9 @@ pub enum ChanFault {
     NeutralField(usize),
     /// evaluation slot j (0..15) re-encoded non-canonically as value + r
     EvalPlusModulus(usize),
+    /// evaluation slot j set to a fixed non-canonical string: the modulus r itself (a second
+    /// encoding of zero), r + 1, 2r, 2^255, 2^256 - 1
+    EvalSetNonCanonical(usize, usize),
     /// commitment slot i (0..11): games with the three flag bits / non-canonical forms of the
     /// compressed G1 encoding (variant 0..8)
     CommFlagGame(usize, usize),
@@ -73,6 +76,7 @@ impl ChanFault {
             ChanFault::FreshField(_) => "chan.fresh_field",
             ChanFault::NeutralField(_) => "chan.neutral_field",
             ChanFault::EvalPlusModulus(_) => "chan.eval_plus_modulus",
+            ChanFault::EvalSetNonCanonical(..) => "chan.eval_set_noncanonical",
             ChanFault::CommFlagGame(..) => "chan.commitment_flag_game",
             ChanFault::PiReplace(..) => "chan.pi_replace",
             ChanFault::PiAddOne(_) => "chan.pi_plus_one",
@@ -237,6 +241,43 @@ pub fn apply(msg: &Msg, fault: &ChanFault, other: Option<&Msg>, rng: &mut Rng) -
                 }
             }
         }
+        ChanFault::EvalSetNonCanonical(j, variant) => {
+            if m.proof.len() >= PROOF_SIZE {
+                const R_LE: [u8; 32] = [
+                    0x01, 0x00, 0x00, 0x00, 0xff, 0xff, 0xff, 0xff, 0xfe, 0x5b, 0xfe, 0xff, 0x02, 0xa4, 0xbd, 0x53, 0x05, 0xd8, 0xa1, 0x09, 0x08, 0xd8,
+                    0x39, 0x33, 0x48, 0x7d, 0x9d, 0x29, 0x53, 0xa7, 0xed, 0x73,
+                ];
+                let r = field_range(N_COMMS + (*j % N_EVALS));
+                let slot = &mut m.proof[r];
+                match variant % 5 {
+                    0 => slot.copy_from_slice(&R_LE),
+                    1 => {
+                        slot.copy_from_slice(&R_LE);
+                        slot[0] = 0x02;
+                    }
+                    2 => {
+                        // 2r (fits 256 bits)
+                        let mut carry = 0u16;
+                        for (k, b) in slot.iter_mut().enumerate() {
+                            let v = 2 * R_LE[k] as u16 + carry;
+                            *b = v as u8;
+                            carry = v >> 8;
+                        }
+                    }
+                    3 => {
+                        for b in slot.iter_mut() {
+                            *b = 0;
+                        }
+                        slot[31] = 0x80;
+                    }
+                    _ => {
+                        for b in slot.iter_mut() {
+                            *b = 0xff;
+                        }
+                    }
+                }
+            }
+        }
         ChanFault::EvalPlusModulus(j) => {
             if m.proof.len() == PROOF_SIZE {
                 // r, little-endian
@@ -310,7 +351,8 @@ pub fn apply(msg: &Msg, fault: &ChanFault, other: Option<&Msg>, rng: &mut Rng) -
 
 /// A random proof-side fault.
 pub fn random_proof_fault(rng: &mut Rng) -> ChanFault {
-    match rng.below(15) {
+    match rng.below(16) {
+        15 => ChanFault::EvalSetNonCanonical(rng.usize(N_EVALS), rng.usize(5)),
         12 => ChanFault::EvalPlusModulus(rng.usize(N_EVALS)),
         13 | 14 => ChanFault::CommFlagGame(rng.usize(N_COMMS), rng.usize(9)),
         0 | 1 | 2 => ChanFault::BitFlip(rng.usize(PROOF_SIZE * 8)),
